@@ -84,3 +84,52 @@ package inprocgrpc
 //@   ensures[C20,C01,C05] client_stream_is_wired_to_fresh_one_slot_channels: result1 == nil ==> typeis(result0, "*inProcessClientStream") && chcap(unbox(result0, "*inProcessClientStream").requests) == 1 && chcap(unbox(result0, "*inProcessClientStream").responses) == 1 && fresh(unbox(result0, "*inProcessClientStream").requests) && fresh(unbox(result0, "*inProcessClientStream").responses) && unbox(result0, "*inProcessClientStream").requests != unbox(result0, "*inProcessClientStream").responses
 //@   assert_call[C10,C04] makeServerContext : from_the_cancellable_call_context: arg0 == lastresult("context.WithCancel", 0) && calls("context.WithCancel") == 1
 //@   modifies everything
+
+// ---- frame transport: readMessage / writeMessage (C01, C04, C05, C20) ----
+//
+//@ func writeMessage
+//@   requires !closed(ch) && ch != nil
+//@   blocking_escape[C05,C04,C20] ctx
+//@   ensures[C04,C05] only_nil_eof_or_the_context_error: result == nil || result == io.EOF || result == ctx_err(ctx)
+//@   ensures[C05] eof_only_when_the_remote_side_is_done: result == io.EOF ==> remoteCtx != nil
+//@   modifies nothing
+//
+//@ func readMessage
+//@   blocking_escape[C05,C04] ctx
+//@   ensures[C04] success_only_with_a_live_context: result1 == nil ==> ctx_err(ctx) == nil
+//@   ensures[C04,C05] errors_are_eof_or_the_context_error: result1 == nil || result1 == io.EOF || (result1 == ctx_err(ctx) && result1 != nil)
+//@   ensures[C01] eof_only_when_the_channel_is_closed_and_drained: result1 == io.EOF ==> closed(ch)
+//@   modifies nothing
+
+// ---- the server goroutine of a unary call ----
+//
+// Frames are written in the order [headers] [data] [trailers] [error]; the
+// data frame is the handler's response and exists iff the handler returned
+// (non-nil response, nil error); the error frame is last and carries the
+// handler's error, or Internal when the handler returned neither.
+//@ closure (*Channel).Invoke.go#1
+//@   requires ch != nil && !closed(ch)
+//@   sole_closer ch
+//@   ensures[C05] reply_channel_closed_exactly_once_after_finish: closed(ch) && calls("(*internal.UnaryServerTransportStream).Finish") == 1
+//@   ensures[C16,C08] handler_runs_exactly_once: calls("grpc.MethodDesc.Handler") == 1
+//@   assert_call[C10] makeServerContext : from_the_calls_cancellable_context: arg0 == ctx$captured
+//@   assert_call[C10,C03] grpc.NewContextWithServerTransportStream : stripped_context_with_this_calls_stream: arg0 == lastresult(makeServerContext) && arg1 == boxed(&sts)
+//@   assert_call[C16,C10,C12] grpc.MethodDesc.Handler : registered_server_fresh_context_copying_decoder_transport_interceptor: arg0 == handler && arg1 == lastresult(grpc.NewContextWithServerTransportStream) && arg2 == codec && arg3 == c.unaryInterceptor && calls(makeServerContext) == 1
+//@   assert_call[C01,C05] writeMessage : on_the_reply_channel_with_the_server_context: arg0 == lastresult(grpc.NewContextWithServerTransportStream) && arg1 == nil && arg2 == ch
+//@   assert_call[C03,C01] writeMessage : headers_frame_only_first: arg3.headers != nil ==> !called(writeMessage) && arg3.data == nil && arg3.trailers == nil && arg3.err == nil && arg3.headers == lastresult("(*internal.UnaryServerTransportStream).GetHeaders")
+//@   assert_call[C08,C01,C02] writeMessage : data_frame_is_the_handlers_response: arg3.headers == nil && arg3.data != nil ==> arg3.data == lastresult("grpc.MethodDesc.Handler", 0) && lastresult("grpc.MethodDesc.Handler", 1) == nil && arg3.trailers == nil && arg3.err == nil && (!called(writeMessage) || (calls(writeMessage) == 1 && lastarg(writeMessage, 3).headers != nil))
+//@   assert_call[C03] writeMessage : trailers_frame_after_data_before_error: arg3.headers == nil && arg3.data == nil && arg3.trailers != nil ==> arg3.err == nil && arg3.trailers == lastresult("(*internal.UnaryServerTransportStream).GetTrailers") && (!called(writeMessage) || (lastarg(writeMessage, 3).trailers == nil && lastarg(writeMessage, 3).err == nil))
+//@   assert_call[C02,C08] writeMessage : error_frame_last_with_the_handlers_error: arg3.headers == nil && arg3.data == nil && arg3.trailers == nil ==> arg3.err != nil && (lastresult("grpc.MethodDesc.Handler", 1) != nil ==> arg3.err == lastresult("grpc.MethodDesc.Handler", 1)) && (lastresult("grpc.MethodDesc.Handler", 1) == nil ==> is_status_err(arg3.err) && err_status_code(arg3.err) == 13) && (!called(writeMessage) || lastarg(writeMessage, 3).err == nil)
+//@   modifies everything
+
+// ---- the server goroutine of a streaming call ----
+//@ closure (*Channel).NewStream.go#1
+//@   ensures[C16,C05] handler_or_interceptor_runs_exactly_once: calls("grpc.StreamServerInterceptor") + calls("grpc.StreamDesc.Handler") == 1
+//@   ensures[C16] transport_interceptor_takes_precedence: called("grpc.StreamServerInterceptor") <==> old(c.streamInterceptor) != nil
+//@   assert_call[C16,C12] grpc.StreamServerInterceptor : registered_server_stream_info_and_handler: arg0 == handler && typeis(arg1, "*inProcessServerStream") && unbox(arg1, "*inProcessServerStream") == serverStream && arg2.FullMethod == method && arg2.IsClientStream == md.ClientStreams && arg2.IsServerStream == md.ServerStreams && arg3 == md.Handler
+//@   assert_call[C16,C12] grpc.StreamDesc.Handler : registered_server_and_this_stream: arg0 == handler && typeis(arg1, "*inProcessServerStream") && unbox(arg1, "*inProcessServerStream") == serverStream
+//@   assert_call[C01,C05,C06,C10] grpc.NewContextWithServerTransportStream : stream_context_from_the_server_context: arg0 == svrCtx && typeis(arg1, "*internal.ServerTransportStream") && unbox(arg1, "*internal.ServerTransportStream").Stream == boxed(serverStream) && unbox(arg1, "*internal.ServerTransportStream").Name == method && serverStream.cloner == cloner && serverStream.requests == requests && serverStream.responses == responses && serverStream.onDone == svrDoneCancel && serverStream.state == 0
+//@   ensures[C05,C02] stream_finished_exactly_once_then_server_context_cancelled: calls("(*inProcessServerStream).finish") == 1 && calls("var:svrCancel") == 1
+//@   assert_call[C02] (*inProcessServerStream).finish : with_the_handlers_error: arg0 == serverStream && (called("grpc.StreamDesc.Handler") ==> arg1 == lastresult("grpc.StreamDesc.Handler")) && (called("grpc.StreamServerInterceptor") ==> arg1 == lastresult("grpc.StreamServerInterceptor"))
+//@   assert_call[C05] var:svrCancel : after_finish: called("(*inProcessServerStream).finish")
+//@   modifies everything
